@@ -159,6 +159,7 @@ def run(case: dict, ctx) -> dict:
             tag=rng.getrandbits(48), header_off=rng.choice([512, 512, 1024, 512 * rng.randrange(1, 40)]),
             table_gap=rng.choice([0, 0, 1, 7]), extra_entries=rng.choice([0, 0, 1, 5]),
             orig_size=rng.choice([None, None, bs * rng.randrange(1, 3 * n + 2), SECTOR * rng.randrange(1, 100)]),
+            table_place=rng.choice(["front", "front", "behind", "middle"]),
         )
         units = [bs]
     model = Model(meta["size"], [layer])
@@ -193,6 +194,32 @@ def run(case: dict, ctx) -> dict:
             res["viol"].append({"what": f"read_sectors raised: {o2.brief()}", "mech": MECH, "detail": {"sector": s0, "count": c, "tb": o2.tb}})
         elif o2.value != exp:
             res["viol"].append({"what": "read_sectors content mismatch", "mech": MECH, "detail": mismatch_detail(s0 * SECTOR, c * SECTOR, o2.value, exp)})
+    # the disk classes built directly on a handle (no footer passed in) and the module's footer reader
+    if not res["viol"] and case["i"] % 3 == 0:
+        from dissect.hypervisor.disk import vhd as rvhd
+
+        cls = rvhd.FixedDisk if k == "fixed" else rvhd.DynamicDisk
+        fh2 = as_handle(sf.to_bytes() if sf.end <= (8 << 20) else sf)
+        o3 = call(cls, fh2)
+        res["cnt"]["direct_disk_class_checks"] = 1
+        if not o3.ok:
+            res["viol"].append({"what": f"{cls.__name__}(fh) failed on conformant image: {o3.brief()}", "mech": MECH, "detail": {"tb": o3.tb}})
+        else:
+            d3 = o3.value
+            if d3.size != meta["size"]:
+                res["viol"].append({"what": f"{cls.__name__}(fh).size differs from the stored size", "mech": MECH, "detail": {"got": d3.size, "exp": meta["size"]}})
+            for _ in range(6):
+                if nsec_total <= 0 or res["viol"]:
+                    break
+                s0 = rng.randrange(nsec_total)
+                c3 = rng.randrange(1, min(nsec_total - s0, 64) + 1)
+                o4 = call(d3.read_sectors, s0, c3)
+                if not o4.ok or o4.value != model.expected(s0 * SECTOR, c3 * SECTOR):
+                    res["viol"].append({"what": f"{cls.__name__}(fh).read_sectors differs from the guest content", "mech": MECH,
+                                        "detail": {"sector": s0, "count": c3, "outcome": o4.brief()}})
+            ft = call(rvhd.read_footer, fh2)
+            if not ft.ok or ft.value.current_size != meta["size"] or bytes(ft.value.cookie) != b"conectix":
+                res["viol"].append({"what": "read_footer(fh) does not return the stored footer", "mech": MECH, "detail": {"outcome": ft.brief()}})
     if fh.mutations:
         res["viol"].append({"what": "handle mutated", "mech": "c09.handle", "detail": {"m": fh.mutations[:3]}})
     res["cnt"]["exhaustive_request_cases"] = int(exhaustive)
